@@ -133,7 +133,14 @@ def autoRank (proj : Project) : List Nat :=
     let rec go : List Name → List Stmt → List Nat
       | _, [] => []
       | cp, .classDef n _ body :: rest => go (cp ++ [n]) body ++ go cp rest
-      | cp, st :: rest => (stmtTargets proj m st).filterMap id ++ go cp rest
+      | cp, st :: rest =>
+        (stmtTargets proj m st).filterMap id ++
+        (match st with
+         | .importFrom lvl M n _ =>
+           (match target proj m lvl M with
+            | some t => (modIdx proj (pathOf proj t ++ [n])).toList
+            | none => [])
+         | _ => []) ++ go cp rest
     go [] (bodyOf proj m)
   let step (r : List Nat) : List Nat :=
     (List.range proj.length).map fun m => ((tg m).map fun t => r.getD t 0 + 1).foldl max 0
